@@ -3,8 +3,9 @@
    Print Assumptions; then examples (hypotheses are satisfiable, concrete runs).
 
    Model: Model/OT.v (executable; byte / bit conventions of bitAt and transposeBits; the
-   fieldElement.accumulate loop as written; the AdditiveOT.Round2 masking loop as written, including
-   its index CombinedPads[j]).  Hash / PRG / sampling functions are universally quantified.
+   fieldElement.accumulate loop as written; AdditiveOT.Round2 / Multiply Round2 of the REPAIRED code
+   (/repo fix commit: mask loops bounded by the pad's own length, list-length checks); the code before
+   the repair is kept as [*_v0] with its refutation witnesses as regression examples).  Hash / PRG / sampling functions are universally quantified.
    [okrow k r] : r has exactly k bytes, each < 256.   [res]: ROk / RErr (Go error) / RPanic (Go panic). *)
 From Coq Require Import List NArith ZArith Bool Znumtheory.
 From MPS Require Import Model.Bytes Model.OT Proofs.OTProofs.
@@ -130,13 +131,12 @@ Proof. exact extended_check_altered_X. Qed.
 Print Assumptions C13_extended_altered_X_rejected.
 
 (* ------------------------------------------------------------------------------------------ *)
-(** additive OT: send[j] + recv[j] = c_j * alpha in both components, whenever batch > nb.
-    (Full statement, without [nb < length V]:  C13_additive_ot_sum_todo -- REFUTED below.) *)
-Theorem C13_additive_ot_sum_partial : forall (q : Z) (nb : nat) (sc2 : bytes -> Z * Z),
+(** additive OT: send[j] + recv[j] = c_j * alpha in both components, EVERY batch size *)
+Theorem C13_additive_ot_sum : forall (q : Z) (nb : nat) (sc2 : bytes -> Z * Z),
   (0 < q)%Z -> (q <= Z.of_N (256 ^ N.of_nat nb))%Z ->
   (forall x, (0 <= fst (sc2 x) < q)%Z /\ (0 <= snd (sc2 x) < q)%Z) ->
   forall alpha choices V VC,
-    length V = (8 * length choices)%nat -> (nb < length V)%nat ->
+    length V = (8 * length choices)%nat ->
     (forall j, (j < length V)%nat ->
        nth j VC [] = (if bit_at j choices then snd else fst) (nth j V ([], []))) ->
     exists recv,
@@ -144,23 +144,24 @@ Theorem C13_additive_ot_sum_partial : forall (q : Z) (nb : nat) (sc2 : bytes -> 
       additive_check_from q 0 alpha choices (snd (additive_send q nb sc2 alpha V)) recv = true /\
       Forall (fun r => (0 <= fst r < q)%Z /\ (0 <= snd r < q)%Z) recv.
 Proof. exact additive_ot_sum. Qed.
-Print Assumptions C13_additive_ot_sum_partial.
+Print Assumptions C13_additive_ot_sum.
 
-(* FINDING (code): the masking loops in AdditiveOTReceiver.Round2 read their bound from
-   CombinedPads[j] instead of CombinedPads[i]; with at most 32 transfers the index j = 32 does not
-   exist and the honest receiver panics.  General form, then a concrete witness. *)
-Theorem C13_additive_small_batch_panics : forall (q : Z) (nb : nat) (sc2 : bytes -> Z * Z) alpha choices V VC,
-  length V = (8 * length choices)%nat -> (0 < length V <= nb)%nat ->
-  additive_recv q nb sc2 choices VC (fst (additive_send q nb sc2 alpha V)) = RPanic.
-Proof. exact additive_small_batch_panics. Qed.
-Theorem C13_additive_ot_sum_refuted :
-  exists (choices : bytes) (V : list (bytes * bytes)),
-    length V = (8 * length choices)%nat /\ (0 < length V)%nat /\
-    forall alpha VC,
-      additive_recv secp256k1_q 32 demo_sc2 choices VC
-        (fst (additive_send secp256k1_q 32 demo_sc2 alpha V)) = RPanic.
-Proof. exact additive_small_batch_refuted. Qed.
-Print Assumptions C13_additive_ot_sum_refuted.
+(* exact outcome of AdditiveOTReceiver.Round2 on ANY message (any number of pads, any pad lengths and
+   contents): ok iff [additive_msg_ok], otherwise an error; never a panic *)
+Theorem C13_additive_recv_outcome : forall (q : Z) (nb : nat) (sc2 : bytes -> Z * Z) choices VC CP,
+  (additive_msg_ok q nb choices CP = true ->
+     exists recv, additive_recv q nb sc2 choices VC CP = ROk recv /\ length recv = (8 * length choices)%nat) /\
+  (additive_msg_ok q nb choices CP = false -> additive_recv q nb sc2 choices VC CP = RErr).
+Proof. exact additive_recv_outcome. Qed.
+Print Assumptions C13_additive_recv_outcome.
+
+Theorem C13_additive_malformed_rejected : forall (q : Z) (nb : nat) (sc2 : bytes -> Z * Z) choices VC CP,
+  length CP <> (8 * length choices)%nat \/
+  (exists i, (i < 8 * length choices)%nat /\
+             (length (fst (nth i CP ([], []))) <> nb \/ length (snd (nth i CP ([], []))) <> nb)) ->
+  additive_recv q nb sc2 choices VC CP = RErr.
+Proof. exact additive_malformed_rejected. Qed.
+Print Assumptions C13_additive_malformed_rejected.
 
 (* ------------------------------------------------------------------------------------------ *)
 (** gadget / encode: sum_j bit_j(encode beta) * g_j = beta (mod q), every beta, noise, gamma *)
@@ -180,7 +181,7 @@ Print Assumptions C13_gadget_encode_decode.
    share_S + share_R = alpha * beta (mod q) *)
 Theorem C13_multiply_correct :
   forall (q : Z) (nb : nat) (sc2 : bytes -> Z * Z) (hV : bytes -> bytes -> bytes) (prg : bytes -> nat -> bytes),
-    (0 < q)%Z -> (0 < nb)%nat -> (q <= Z.of_N (256 ^ N.of_nat nb))%Z ->
+    (0 < q)%Z -> (q <= Z.of_N (256 ^ N.of_nat nb))%Z ->
     (forall x, (0 <= fst (sc2 x) < q)%Z /\ (0 <= snd (sc2 x) < q)%Z) ->
     (forall k n, okrow n (prg k n)) ->
     forall k8 x, mult_inputs_ok q nb k8 x ->
@@ -217,7 +218,8 @@ Print Assumptions C13_multiply_layer_correct.
    ends in an error or in a correct product.  Not provable as stated: (i) acceptance depends on the
    hash-derived weights chi0, chi1 (probabilistic soundness; for chi0 = 0 mod q a moved first pad is
    accepted with a wrong product), (ii) alterations of the receiver's U columns change the hash
-   transcript and cannot be treated algebraically, (iii) REFUTED for malformed pads, see below. *)
+   transcript and cannot be treated algebraically.  What IS proved for arbitrary, also malformed,
+   sender messages: C13_multiply_never_panics, C13_multiply_malformed_rejected (below). *)
 Theorem C13_multiply_check_sound_partial : forall q, (0 < q)%Z ->
   forall chi0 chi1 choices alpha d0 d1 e f send recv gadget rcheck ucheck sS,
     additive_check_from q 0 alpha choices send recv = true ->
@@ -237,7 +239,7 @@ Print Assumptions C13_multiply_check_sound_partial.
 Theorem C13_additive_altered_pads : forall (q : Z) (nb : nat) (sc2 : bytes -> Z * Z),
   (0 < q)%Z -> (q <= Z.of_N (256 ^ N.of_nat nb))%Z ->
   forall choices VC CP d0 d1,
-    length CP = (8 * length choices)%nat -> (nb < length CP)%nat ->
+    length CP = (8 * length choices)%nat ->
     (forall p, In p CP -> pad_ok q nb p) ->
     exists recv,
       additive_recv q nb sc2 choices VC CP = ROk recv /\
@@ -284,19 +286,68 @@ Theorem C13_multiply_altered_pads : forall q, (0 < q)%Z ->
 Proof. exact multiply_altered_pads. Qed.
 Print Assumptions C13_multiply_altered_pads.
 
-(* FINDING (code): "an altered message ends in an error or in a still-correct product" is REFUTED by
-   the model of the current Go code: one pad of the sender's message cut short (here entry 7, 5 bytes
-   instead of 32) makes the honest receiver index past its end -- a panic, not an error.  (Reproduced
-   on the Go code: "index out of range [5] with length 5".) *)
-Theorem C13_altered_message_refuted :
+(* MultiplyReceiver.Round2 (additive OT round 2, length check, integrity check, share) on an ARBITRARY
+   sender message -- any number of pads, pads of any length and content, any RCheck list, any UCheck:
+   it returns a share or an error, it never panics *)
+Theorem C13_multiply_never_panics :
+  forall (q : Z) (nb : nat) (sc2 : bytes -> Z * Z) chi0 chi1 choices VC gadget,
+    length gadget = (8 * length choices)%nat ->
+    forall CP rcheck ucheck,
+      mult_recv_round2 q nb sc2 chi0 chi1 choices VC gadget CP rcheck ucheck <> RPanic.
+Proof. exact multiply_never_panics. Qed.
+Print Assumptions C13_multiply_never_panics.
+
+(* wrong number of pads, a short or long pad (either component, either choice bit), wrong number of
+   check values: error *)
+Theorem C13_multiply_malformed_rejected :
+  forall (q : Z) (nb : nat) (sc2 : bytes -> Z * Z) chi0 chi1 choices VC gadget CP rcheck ucheck,
+      length CP <> (8 * length choices)%nat \/
+      (exists i, (i < 8 * length choices)%nat /\
+                 (length (fst (nth i CP ([], []))) <> nb \/ length (snd (nth i CP ([], []))) <> nb)) \/
+      length rcheck <> (8 * length choices)%nat ->
+      mult_recv_round2 q nb sc2 chi0 chi1 choices VC gadget CP rcheck ucheck = RErr.
+Proof. exact multiply_malformed_rejected. Qed.
+Print Assumptions C13_multiply_malformed_rejected.
+
+(* ------------------------------------------------------------------------------------------ *)
+(** Regression: the code BEFORE the repair ([*_v0]).  Both statements above were refuted by it. *)
+
+(* v0: the masking loops read their bound from CombinedPads[j] instead of CombinedPads[i]; with at most
+   nb (= 32) transfers the index j = nb does not exist and the honest receiver panicked *)
+Theorem C13_additive_small_batch_panics_v0 : forall (q : Z) (nb : nat) (sc2 : bytes -> Z * Z) alpha choices V VC,
+  length V = (8 * length choices)%nat -> (0 < length V <= nb)%nat ->
+  additive_recv_v0 q nb sc2 choices VC (fst (additive_send q nb sc2 alpha V)) = RPanic.
+Proof. exact additive_small_batch_panics. Qed.
+Example C13_additive_ot_sum_refuted_v0 :
+  exists (choices : bytes) (V : list (bytes * bytes)),
+    length V = (8 * length choices)%nat /\ (0 < length V)%nat /\
+    forall alpha VC,
+      additive_recv_v0 secp256k1_q 32 demo_sc2 choices VC
+        (fst (additive_send secp256k1_q 32 demo_sc2 alpha V)) = RPanic.
+Proof. exact additive_small_batch_refuted_v0. Qed.
+Print Assumptions C13_additive_ot_sum_refuted_v0.
+(* ... the same run on the repaired code *)
+Example C13_additive_small_batch_ok :
+  exists recv,
+    additive_recv secp256k1_q 32 demo_sc2 [165%N; 90%N; 255%N; 0%N] (firstn 32 demo_VC)
+      (fst (additive_send secp256k1_q 32 demo_sc2 (11, 12)%Z (firstn 32 demo_V))) = ROk recv.
+Proof. exact additive_small_batch_ok. Qed.
+
+(* v0: one pad of the sender's message cut short (entry 7, 5 bytes instead of 32) made the honest
+   receiver index past its end -- a panic, not an error ("index out of range [5] with length 5") *)
+Example C13_altered_message_refuted_v0 :
   exists CP CP' i,
-    (exists recv, additive_recv secp256k1_q 32 demo_sc2 demo_choices demo_VC CP = ROk recv) /\
+    (exists recv, additive_recv_v0 secp256k1_q 32 demo_sc2 demo_choices demo_VC CP = ROk recv) /\
     length CP' = length CP /\
     (forall j, j <> i -> nth j CP' ([], []) = nth j CP ([], [])) /\
     snd (nth i CP' ([], [])) = snd (nth i CP ([], [])) /\
-    additive_recv secp256k1_q 32 demo_sc2 demo_choices demo_VC CP' = RPanic.
-Proof. exact altered_short_pad_refuted. Qed.
-Print Assumptions C13_altered_message_refuted.
+    additive_recv_v0 secp256k1_q 32 demo_sc2 demo_choices demo_VC CP' = RPanic.
+Proof. exact altered_short_pad_refuted_v0. Qed.
+Print Assumptions C13_altered_message_refuted_v0.
+(* ... the same message on the repaired code: an error *)
+Example C13_altered_message_rejected :
+  additive_recv secp256k1_q 32 demo_sc2 demo_choices demo_VC demo_CP_short = RErr.
+Proof. exact additive_short_pad_rejected. Qed.
 
 (* ------------------------------------------------------------------------------------------ *)
 (** Examples: the hypotheses are satisfiable, and concrete runs *)
